@@ -112,6 +112,8 @@ def run(R):
     r12(R)
     r13(R)
     r14(R)
+    import c14
+    c14.case_preserved(R, "C13-R15")
 
 
 def shared_dictionary(b, fam, prog, root_a, root_b):
